@@ -496,3 +496,21 @@ package fr
 //@ requires a != &rSquare && b != &rSquare && a != b
 //@ ensures *a == *b
 //@ modifies *a, *b
+
+// ---- BatchInvert, proved in the field view (Element = one abstract cell of sort Fr)
+
+//@ func BatchInvert
+//@ props C15
+//@ view opaque
+//@ prelude field fieldlemmas batchinv
+//@ ensures fresh(result) && len(result) == len(a)
+//@ ensures forall k int :: 0 <= k && k < len(a) ==> result[k] == fr_inv(a[k])
+//@ loop 0 invariant 0 <= i && i <= len(a) && len(res) == len(a) && len(zeroes) == len(a) && fresh(res) && fresh(zeroes) && obj(res) != obj(zeroes)
+//@ loop 0 invariant accumulator == prefP(a, i) && accumulator != fr_zero
+//@ loop 0 invariant forall j int :: 0 <= j && j < len(a) ==> zeroes[j] == (j < i && a[j] == fr_zero)
+//@ loop 0 invariant forall j int :: 0 <= j && j < len(a) ==> res[j] == ((j < i && a[j] != fr_zero) ? prefP(a, j) : fr_zero)
+//@ loop 1 invariant 0 - 1 <= i && i < len(a) && len(res) == len(a) && len(zeroes) == len(a) && fresh(res) && fresh(zeroes) && obj(res) != obj(zeroes)
+//@ loop 1 invariant accumulator == fr_inv(prefP(a, i + 1)) && prefP(a, i + 1) != fr_zero
+//@ loop 1 invariant forall j int :: 0 <= j && j < len(a) ==> zeroes[j] == (a[j] == fr_zero)
+//@ loop 1 invariant forall j int :: 0 <= j && j <= i ==> res[j] == (a[j] != fr_zero ? prefP(a, j) : fr_zero)
+//@ loop 1 invariant forall j int :: i < j && j < len(a) ==> res[j] == fr_inv(a[j])
